@@ -7,33 +7,50 @@ ENTRY = {'coq_dir': 'C11',
          'dialable/undialable peers: per-peer scripts that open a stream (user-initiated, remote-initiated, simultaneous) and end it (user '
          'close, remote close, disconnect, slow closes), interleaved at random, with 0-100 % random noise events, lost and swapped steps; '
          'events: connection established/closed, inbound/outbound substream, open failure, dial failure, handshake success/failure per '
-         'direction, validation accept/reject (also stale and duplicated), negotiation timer, user open/close/force-close, remote close of '
-         'an open stream, delayed and released substream closes, dead command channel. The real NotificationProtocol::next_event is polled '
-         'once per ready event; after every event the user events, the calls on the TransportService and a dump (peer state incl. '
-         "inbound/outbound sub-state and pending substream id, handshake-service membership, the handle's peers/pending-validation gate, "
-         'pending_outbound, live Connection tasks) are compared with the extracted Coq model; a case is non-trivial when its trace has >= '
-         '100 numbers',
+         'direction, validation accept/reject (also stale, duplicated and superseded), negotiation timer (hook-fired; real 5 s expiry in '
+         'thorough-tier corpus cases), remote notifications (also a last one right before the remote closes), user open/close/force-close, '
+         'sends through the handle and through a kept NotificationSink clone in every state (before Opened, while open, after Closed, '
+         'never opened) with the frames written to the substreams observed, remote close of an open stream, delayed and released substream '
+         'closes, dead command channel. Three quarters of the cases run with a user who drains the handle after every event: the real '
+         'NotificationProtocol::next_event is polled once per ready event and after every event the user events, return values, wire '
+         'frames, the calls on the TransportService and a dump (peer state incl. sub-states and pending substream id, handshake-service '
+         "membership, the handle's peers/pending-validation gate, pending_outbound, live Connection tasks, timers armed so far) are "
+         'compared with the extracted Coq model. One quarter runs with a user event channel of capacity 1-5 and a user who polls the '
+         'handle only now and then (kind 25): the parked next_event() future is kept alive, deliveries, service calls, the handle gate, '
+         'the channel fill and the parked flag are compared after every step; a case is non-trivial when its trace has >= 100 numbers',
  'trusted_base': ['the scripted byte carrier (SubstreamType::Verif) stands for yamux/TCP substreams: reads, flushes and shutdowns complete '
                   'exactly when the case says so',
-                  'Connection tasks are polled by the harness (collecting Executor) after every event; the user drains the '
+                  'Connection tasks are polled by the harness (collecting Executor); in the eager cases the user drains the '
                   'NotificationHandle after every event',
                   'the 10 s handshake timeout of HandshakeService and the keep-alive downgrade of TransportService are not exercised (a '
-                  'handshake timeout is the same NegotiationError event as a failed handshake); the 5 s timer is fired through a hook'],
- 'level_text': 'Partial proof. Proved about the model (all configurations, unbounded histories): the per-peer event grammar (Opened/Closed '
-               'alternate, no OpenFailure while open) for histories in which Connection tasks close promptly, by an inductive invariant '
-               'tying live Connection tasks, PeerState::Open, the handle gate and the grammar state together (C11_alternation), with a '
-               'machine-checked counterexample when closes are slow (C11_alternation_refuted, known finding class 1); Opened is only '
-               'emitted from a state whose inbound substream was accepted (C11_opened_needs_accepted_inbound, any state); Closed is '
-               'emitted in the step that handles a disconnect or a user close of an open stream (C11_closed_on_disconnect, '
-               'C11_closed_on_user_close); the kept-failed-id wedge is exhibited (C11_open_answered_refuted, known finding class 2). '
-               'Checked on every trace by the oracle but NOT proved: absence of stuck/Poisoned states (debug_assert!(false)) under the '
-               'environment guards, isolation between peers, the accept-origin of the accepted inbound state, the open-request ledger. The '
-               'model is tied to mod.rs/connection.rs/negotiation.rs/handle.rs by a per-event differential run with state dumps (0 '
-               'disagreements in 120 000 histories).',
- 'level_note': 'Handlers are atomic in the model: `.await`s inside a handler (a full user event channel parks the loop) are not modelled; '
-               'notifications themselves (C12) are not modelled; the stale-shutdown defect was repaired (fix: commit) and its witness '
-               'stays in the corpus; two findings are recorded in KNOWN_FINDINGS.txt.',
+                  'handshake timeout is the same NegotiationError event as a failed handshake); the 5 s timers are futures_timer (real '
+                  'time): they are fired through a hook in random cases and by really sleeping in thorough-tier corpus cases',
+                  'the bounded-channel driver keeps a parked next_event() future alive through an unsafe self-reference and tells a parked '
+                  'handler from an idle poll by input-queue lengths (cfg(verif) hook code)',
+                  'channel capacities of the per-stream sync/async notification channels are not modelled (C12); the lazy-user model '
+                  'leaves out send operations'],
+ 'level_text': 'Proof about the model (all configurations, unbounded histories), tied to the Rust code by a per-event differential run. No '
+               'stuck state (C11_no_stuck, explicit environment predicate `enabled`, C11_lazy_no_stuck for the bounded channel); isolation '
+               'between peers (C11_isolation); event grammar incl. NotificationReceived under prompt closes (C11_alternation; class 1 '
+               'otherwise); inbound streams only after an accept (C11_opened_needs_accepted_inbound, C11_accepted_only_by_accept, '
+               'C11_inbound_needs_accept); the open-request ledger outside finding classes 2 and 3 (C11_open_answered, '
+               'C11_quiescent_nothing_owed, C11_at_most_one_answer, both exclusions shown necessary); Closed on disconnect / user close; '
+               'the sending side (C11_send_gate: a frame reaches the wire only in a send operation, with that message, through the sink of '
+               'a running task of that peer, through the handle only while the gate is open and only into the period whose sink the handle '
+               'holds; C11_send_gate_closed, C11_stale_sink_errors); the 5 s timers as armed/fired state (C11_timers_fire_once, '
+               'C11_waiting_attempt_has_timer, C11_timer_only_cancels_waiting, C11_no_stale_timer_kill; '
+               'C11_stale_timer_cancels_newer_attempt_refuted is an observation); the bounded user event channel with a late-polling user '
+               '(C11_event_channel_no_loss, C11_event_channel_step, C11_poll_delivers_oldest, C11_capacity_only_delays).',
+ 'level_note': "Sending: channel capacities / clogging are C12's; receiving: only the handle gate and the event order. In the "
+               "bounded-channel model a parked handler's effects are applied when it parks and only its post-await calls are held back "
+               '(nothing else runs meanwhile, the protocol state is not dumped while parked). Defects repaired: stale shutdown notice, '
+               'superseded validation request (fix: commits); findings recorded: classes 1-3; observations: a stale 5 s timer cancels a '
+               'newer attempt early; with a late-polling user a notification of stream period 1 can be handed out in period 2 (the handle '
+               'only checks `peers.contains_key`).',
  'assumptions': ['events arrive as the TransportService contract allows (C08): established/closed alternate per peer, substream results '
                  'only for requested ids on the live connection, handshake events only for substreams handed to the HandshakeService; '
-                 'these are the guards of Model.main_handler',
-                 'alternation additionally assumes Connection tasks close promptly (no Gate / gated TaskDie event)']}
+                 'these are the guards of Model.main_handler, spelled out as `enabled`',
+                 'alternation additionally assumes Connection tasks close promptly (no Gate / gated TaskDie / gated NotifyDie event)',
+                 'the ledger theorem excludes finding class 2 (class2_step) and class 3 (class3_step)',
+                 "bounded-channel model: while the loop is parked no other event is scheduled; tokio's mpsc semaphore serves waiting "
+                 'senders in arrival order']}
